@@ -1,5 +1,7 @@
 """Community detection via clustering of Laplacian eigenvectors."""
 
+from inspect import signature
+
 import numpy as np
 from scipy.sparse.linalg import eigsh
 
@@ -60,9 +62,15 @@ def spectral_clustering(H, k=2, max_iter=1_000, seed=None):
     # ARPACK starts from a random vector drawn from numpy's global generator unless
     # one is given; tie it to the seed so that equal seeds give equal results
     v0 = None
+    kwargs = {}
     if seed is not None:
-        v0 = np.random.default_rng(seed=seed).uniform(-1, 1, size=L.shape[0])
-    evals, eigs = eigsh(L, k=k, which="SA", v0=v0)
+        rng = np.random.default_rng(seed=seed)
+        v0 = rng.uniform(-1, 1, size=L.shape[0])
+        # newer SciPy versions draw the vectors ARPACK restarts from (degenerate
+        # spectra, e.g. disconnected hypergraphs) from `rng`
+        if "rng" in signature(eigsh).parameters:
+            kwargs["rng"] = rng
+    evals, eigs = eigsh(L, k=k, which="SA", v0=v0, **kwargs)
 
     # Form metric space representation
     X = np.array(eigs)
